@@ -28,7 +28,43 @@ import (
 //	G: like B, with the same defect (E2002), language zh
 //	H: like A plus a column K8sNodeName, acronym table {K8s: k8s}
 //	I: like A plus the same column, acronym table {K8s: kube} (the same pattern, another replacement)
+//	J: another workbook (Shop) whose last column is an in-cell struct ({int32 Gold,int32 Gem}Price)
+//	K: GenConf on a hand-written proto file whose messages carry no (tableau.field) options at all (a plain string
+//	   field and a plain cross-cell struct field), same package
 func c16Call(name string, w *workspace) string {
+	confOpts := func(lang string) []options.Option {
+		co := &options.ConfOption{
+			Input:  &options.ConfInputOption{ProtoPaths: []string{w.Proto}, ProtoFiles: []string{filepath.Join(w.Proto, "*.proto")}, Formats: []format.Format{format.CSV}},
+			Output: &options.ConfOutputOption{Formats: []format.Format{format.JSON}},
+		}
+		return []options.Option{options.Conf(co), options.Log(quietLog), options.Lang(lang), options.LocationName("UTC")}
+	}
+	outcome := func(err error) string {
+		if err != nil {
+			text := strings.ReplaceAll(xerrors.NewDesc(err).String(), w.Root, "<ROOT>")
+			sum := sha256.Sum256([]byte(text))
+			return "conferr " + errCode(err) + " text=" + hex.EncodeToString(sum[:6])
+		}
+		return "ok " + snapString(snapshot(w.Proto)) + "|" + snapString(snapshot(w.Conf))
+	}
+	switch name {
+	case "J":
+		w.writeCSVBook("", bookSpec{Name: "Shop", Sheets: []sheetSpec{{Name: "ItemConf", Rows: [][]string{{"ID", "Name", "Price"},
+			{"map<uint32, Item>", "string", "{int32 Gold,int32 Gem}Price"}, {"id", "name", "price"}, {"1", "Sword", "10,2"}, {"2", "Shield", "7,1"}, {"3", "Bow", "4,4"}}}}})
+		if err := w.genProto(runOpts{}); err != nil {
+			return "protoerr " + errCode(err)
+		}
+		return outcome(tableau.GenConf("protoconf", w.In, w.Conf, confOpts("en")...))
+	case "K":
+		proto := "syntax = \"proto3\";\npackage protoconf;\nimport \"tableau/protobuf/tableau.proto\";\noption (tableau.workbook) = {name:\"Server#*.csv\"};\n\n" +
+			"message ServerConf {\n  option (tableau.worksheet) = {name:\"ServerConf\"};\n  string name = 1;\n  Limits limits = 2;\n}\n\n" +
+			"message Limits {\n  int32 max_players = 1;\n  int32 max_rooms = 2;\n}\n"
+		if err := os.WriteFile(filepath.Join(w.Proto, "server.proto"), []byte(proto), 0o644); err != nil {
+			panic(err)
+		}
+		writeCSV(filepath.Join(w.In, "Server#ServerConf.csv"), [][]string{{"Name", "LimitsMaxPlayers", "LimitsMaxRooms"}, {"string", "int32", "int32"}, {"n", "p", "r"}, {"alpha", "100", "8"}})
+		return outcome(tableau.GenConf("protoconf", w.In, w.Conf, confOpts("en")...))
+	}
 	kind := [][]string{{"Name", "Alias"}, {"KIND_X", "Alpha"}, {"KIND_Y", "Beta"}}
 	ids := []string{"1", "2"}
 	refer := "ItemConf.ID"
@@ -135,13 +171,19 @@ func init() {
 	// e2e.C16.history: every history of ≤ 3 calls from the pool; the LAST call's outcome (files written, error)
 	// in a process that ran the whole history vs. in a fresh process.
 	regStream("e2e.C16.history", func(r *rand.Rand, n int, emit func(string, ...string)) {
-		pool := []string{"A", "B", "C", "D", "E", "F", "G", "H", "I"}
+		pool := []string{"A", "B", "C", "D", "E", "F", "G", "H", "I", "J", "K"}
 		count := 0
 		for _, a := range pool {
 			for _, b := range pool {
 				emit("c16.hist", a, b)
 				count++
 			}
+		}
+		// pooled objects are per-P and survive only until the next GC: histories around the option-less proto (K)
+		// are repeated, so that a recycled object carrying stale members is met with high probability
+		for _, h := range [][]string{{"J", "K"}, {"J", "J", "K"}, {"A", "J", "K"}, {"J", "K", "K"}, {"J", "B", "K"}, {"J", "K"}} {
+			emit("c16.hist", h...)
+			count++
 		}
 		for count < n {
 			emit("c16.hist", pool[r.Intn(len(pool))], pool[r.Intn(len(pool))], pool[r.Intn(len(pool))])
